@@ -347,24 +347,6 @@ pub enum Items {
     M(Vec<Msg>),
 }
 
-impl Items {
-    pub fn len(&self) -> usize {
-        match self {
-            Items::B(v) => v.len(),
-            Items::V(v) => v.len(),
-            Items::M(v) => v.len(),
-        }
-    }
-
-    pub fn show(&self) -> Value {
-        match self {
-            Items::B(v) => json!({"bytes": v.iter().map(|x| x.show()).collect::<Vec<_>>()}),
-            Items::V(v) => json!({"values": v.iter().map(|x| x.show()).collect::<Vec<_>>()}),
-            Items::M(v) => json!({"msgs": v.iter().map(|x| x.show()).collect::<Vec<_>>()}),
-        }
-    }
-}
-
 /// Expected outcome per complete frame: `Some(v)` = `Ok(v)`, `None` = `Err`.
 #[derive(Clone, Debug)]
 pub enum Exp {
@@ -486,7 +468,7 @@ pub struct DecOut<T> {
     pub zero_cap: usize,
 }
 
-pub fn stream_run<C, F, T>(codec: C, framer: F, data: &[u8], frags: &[usize], polls_after_err: Option<usize>) -> DecOut<T>
+pub fn stream_run<C, F, T>(codec: C, framer: F, data: &[u8], frags: &[usize], polls_after_err: Option<usize>, max_items: Option<usize>) -> DecOut<T>
 where
     C: Decoder<T, Vec<u8>> + Unpin,
     <C as Decoder<T, Vec<u8>>>::Error: Display,
@@ -507,6 +489,9 @@ where
     let max_polls = data.len() + 4;
     let mut err_budget = polls_after_err;
     for _ in 0..max_polls {
+        if max_items.is_some_and(|m| out.items.len() >= m) {
+            break;
+        }
         out.polls += 1;
         match block_on_bounded(fr.next(), 2) {
             Err(_) => {
@@ -550,10 +535,8 @@ pub struct Fail {
 #[derive(Debug, Default, Clone)]
 pub struct DecStats {
     pub reads: usize,
-    pub polls: usize,
     pub items_ok: usize,
     pub items_err: usize,
-    pub ended: bool,
 }
 
 fn show_res<T: Item>(r: &Result<T, String>) -> Value {
@@ -565,7 +548,10 @@ fn show_res<T: Item>(r: &Result<T, String>) -> Value {
 
 /// Oracle for framers with boundaries. `bounds[i]` = stream offset where
 /// frame i ends; `k` = number of bytes delivered before EOF.
-pub fn judge_framed<T: Item>(expected: &[Option<T>], bounds: &[usize], k: usize, out: &DecOut<T>) -> Option<Fail> {
+///
+/// `poisoned`: the bytes after the last complete frame are a header the framer
+/// must reject (`Err`); the stream then reports errors and need not end.
+pub fn judge_framed<T: Item>(expected: &[Option<T>], bounds: &[usize], k: usize, out: &DecOut<T>, poisoned: bool) -> Option<Fail> {
     if out.pending {
         return Some(Fail { rule: "pending-on-ready-source", what: format!("poll_next returned Pending after {} reads although the reader is always ready", out.reads) });
     }
@@ -619,6 +605,12 @@ pub fn judge_framed<T: Item>(expected: &[Option<T>], bounds: &[usize], k: usize,
             what: format!("stream ended={} after {} items, {c} complete frames were delivered; last: {}", out.ended, out.items.len(), out.items.last().map(show_res).unwrap_or(Value::Null)),
         });
     }
+    if poisoned {
+        if out.items.len() <= c {
+            return Some(Fail { rule: "unacceptable-header-not-rejected", what: format!("stream ended={} after {c} items without an error for the unacceptable frame header", out.ended) });
+        }
+        return None;
+    }
     if !out.ended {
         let errs = out.items.iter().filter(|r| r.is_err()).count();
         return Some(Fail { rule: "no-end-of-stream", what: format!("{} polls, {} items ({errs} errors) for {k} bytes and the stream did not end", out.polls, out.items.len()) });
@@ -663,28 +655,28 @@ pub fn judge_noop(delivered: &[u8], out: &DecOut<Bytes>) -> Option<Fail> {
 fn stats<T>(o: &DecOut<T>) -> DecStats {
     DecStats {
         reads: o.reads,
-        polls: o.polls,
         items_ok: o.items.iter().filter(|r| r.is_ok()).count(),
         items_err: o.items.iter().filter(|r| r.is_err()).count(),
-        ended: o.ended,
     }
 }
 
 /// Deliver `data` (already cut) in `frags` to the real Stream half and judge.
-pub fn decode_case(fr: Fr, cd: Cd, exp: &Exp, bounds: &[usize], data: &[u8], frags: &[usize]) -> (Option<Fail>, DecStats) {
+pub fn decode_case(fr: Fr, cd: Cd, exp: &Exp, bounds: &[usize], data: &[u8], frags: &[usize], poisoned: bool) -> (Option<Fail>, DecStats) {
+    let c = bounds.iter().take_while(|b| **b <= data.len()).count();
+    let mi = poisoned.then_some(c + 2);
     match exp {
         Exp::B(e) => {
-            let out: DecOut<Bytes> = with_framer!(fr, |f| stream_run(BytesCodec::new(), f, data, frags, None));
-            let v = if fr == Fr::Noop { judge_noop(data, &out) } else { judge_framed(e, bounds, data.len(), &out) };
+            let out: DecOut<Bytes> = with_framer!(fr, |f| stream_run(BytesCodec::new(), f, data, frags, None, mi));
+            let v = if fr == Fr::Noop { judge_noop(data, &out) } else { judge_framed(e, bounds, data.len(), &out, poisoned) };
             (v, stats(&out))
         }
         Exp::V(e) => {
-            let out: DecOut<Value> = with_framer!(fr, |f| stream_run(cd.json(), f, data, frags, None));
-            (judge_framed(e, bounds, data.len(), &out), stats(&out))
+            let out: DecOut<Value> = with_framer!(fr, |f| stream_run(cd.json(), f, data, frags, None, mi));
+            (judge_framed(e, bounds, data.len(), &out, poisoned), stats(&out))
         }
         Exp::M(e) => {
-            let out: DecOut<Msg> = with_framer!(fr, |f| stream_run(cd.json(), f, data, frags, None));
-            (judge_framed(e, bounds, data.len(), &out), stats(&out))
+            let out: DecOut<Msg> = with_framer!(fr, |f| stream_run(cd.json(), f, data, frags, None, mi));
+            (judge_framed(e, bounds, data.len(), &out, poisoned), stats(&out))
         }
     }
 }
@@ -692,5 +684,5 @@ pub fn decode_case(fr: Fr, cd: Cd, exp: &Exp, bounds: &[usize], data: &[u8], fra
 /// Custom framer returning `Err`: the stream must give that error and stay
 /// pollable (error again or end), never panic. Returns the outcomes.
 pub fn decode_after_error(fr: Fr, data: &[u8], frags: &[usize]) -> DecOut<Bytes> {
-    with_framer!(fr, |f| stream_run(BytesCodec::new(), f, data, frags, Some(2)))
+    with_framer!(fr, |f| stream_run(BytesCodec::new(), f, data, frags, Some(2), None))
 }
